@@ -181,7 +181,7 @@ def dump(t):
     if k == 'nil': return 'N'
     if k == 'anon': return '_'
     if k == 'atom': return 'A' + quote(t[1])
-    if k == 'float': return 'F%016x' % f64_bits(t[1])
+    if k == 'float': return 'Fnan' if t[1] != t[1] else 'F%016x' % f64_bits(t[1])
     if k == 'int': return 'I%d' % t[1]
     if k == 'var': return 'V%d%s' % (t[1], quote(t[2]))
     if k == 'cplx': return 'C(' + ','.join(dump(x) for x in t[1]) + ')'
